@@ -135,13 +135,15 @@ def c01_3(ctx):
         atoms = []
         for c, pol in conds:
             for a in bool_atoms(c):
-                if a not in atoms:
+                na = N(negate(ast.parse(a, mode='eval').body))
+                if a not in atoms and na not in atoms:      # `len(v) != n` is the negation of `len(v) == n`, not a second atom
                     atoms.append(a)
-        def atomval(env, names):
-            for nm in names:
-                if nm in env:
-                    return env[nm]
-            return None
+
+        def val(env, text):
+            if text in env:
+                return env[text]
+            na = N(negate(ast.parse(text, mode='eval').body))
+            return (not env[na]) if na in env else False
         bad = []
         import itertools
         if len(atoms) > 10:
@@ -150,9 +152,9 @@ def c01_3(ctx):
             env = dict(zip(atoms, bits))
             if not all(bool_eval(c, env) == pol for c, pol in conds):
                 continue
-            a = env.get(A, False)
-            b = env.get(B, False)
-            k = any(env.get(f, False) for f in KFORMS)
+            a = val(env, A)
+            b = val(env, B)
+            k = any(val(env, f) for f in KFORMS)
             ok = k or (b if rebind else a)
             if not ok:
                 bad.append(env)
